@@ -893,6 +893,13 @@ func TestVerifC02Verifiers(t *testing.T) {
 
 	tier := vkTierFor(c)
 	zones := vkEnumZones(tier.nCands, tier.maxOwners)
+	if tier.nCands < len(vkCands) {
+		// quick tier: the apex-DNAME candidate alone and next to every one of the other quick candidates
+		zones = append(zones, []int{14})
+		for i := 0; i < tier.nCands; i++ {
+			zones = append(zones, []int{i, 14})
+		}
+	}
 	e := &vkExplorer{c: c, tier: tier, qs: vkQueryNames(tier.alpha, tier.alpha3, tier.alpha4), ntCap: 1500000, oc: map[string]int64{}, seenKey: map[string]bool{}, complete: map[string]int64{}}
 	c.Note(fmt.Sprintf("%d zones (<=%d owners of %d candidates), %d query names, qtypes %d, NSEC3 parameter sets %v", len(zones), tier.maxOwners, tier.nCands, len(e.qs), len(vkQtypes), vkN3ParamSets))
 	done := 0
